@@ -352,8 +352,8 @@ func ZZ_CONN() {
 	if throttled {
 		zzReach("throttled wiring")
 		tr, ok := rec.(*throttle.ThrottledRecorder)
-		zzAssert(ok, "C05: with throttling active the motion sink is the throttled recorder")
-		zzAssert(zzFieldInt(tr, "minRecordingLength") == int64((minS+prevS)*fps), "C05: the throttle's minimum clip is (min-secs+preview-secs)*fps frames")
+		zzAssert(ok, "C05/C11: with throttling active the motion sink is the throttled recorder")
+		zzAssert(zzFieldInt(tr, "minRecordingLength") == int64((minS+prevS)*fps), "C05/C11: the throttle's minimum clip is (min-secs+preview-secs)*fps frames")
 		b, okb := zzFieldVal(tr, "bucket").(*ratelimit.Bucket)
 		zzAssert(okb && b.Capacity() == int64(bucketS*fps), "C05: bucket sized bucket-size*fps frames")
 		inner, oki := zzFieldVal(tr, "recorder").(*CPTVFileRecorder)
